@@ -5,6 +5,7 @@ package main
 
 import (
 	"fmt"
+	"os"
 	"go/constant"
 	"go/token"
 	"go/types"
@@ -65,6 +66,8 @@ type Exec struct {
 	trivialSafety  int
 	boxes          map[*Term]*boxInfo
 	seqOf          map[*Term]*seqInfo
+	freshRefs      map[*Term]bool
+	skipHeadOnce   *ssa.BasicBlock
 }
 
 type unsupported struct{ msg string }
@@ -76,6 +79,8 @@ func (ex *Exec) note(id string) {
 		ex.assumed[id] = true
 	}
 }
+
+var debugLoops = os.Getenv("GOVC_DEBUG_LOOPS") != ""
 
 const maxPaths = 6000
 const maxInlineDepth = 5
@@ -310,7 +315,7 @@ func isBackEdge(pred, b *ssa.BasicBlock) bool { return pred != nil && b.Dominate
 // loopWrites discovers which heap arrays the loop with head h can write, by
 // executing its body once in collect mode from (a clone of) the current state.
 func (ex *Exec) loopWrites(st *State, h *ssa.BasicBlock) map[string]*Sort {
-	sub := &Exec{eng: ex.eng, fn: ex.fn, fc: ex.fc, collect: true, written: map[string]*Sort{}, pre: ex.pre, inputs: ex.inputs, loopEntry: map[*ssa.BasicBlock]*State{}, cloAt: ex.cloAt, callSeq: map[string]int{}, boxes: ex.boxes, seqOf: ex.seqOf}
+	sub := &Exec{eng: ex.eng, fn: ex.fn, fc: ex.fc, collect: true, written: map[string]*Sort{}, pre: ex.pre, inputs: ex.inputs, loopEntry: map[*ssa.BasicBlock]*State{}, cloAt: ex.cloAt, callSeq: map[string]int{}, boxes: ex.boxes, seqOf: ex.seqOf, freshRefs: map[*Term]bool{}}
 	s := st.clone()
 	fr := s.top()
 	for _, in := range h.Instrs {
@@ -346,6 +351,9 @@ func (ex *Exec) execLoopBody(st *State, h *ssa.BasicBlock) {
 	fr := st.top()
 	fr.names["$collecthead"] = namedVal{v: scalar(IntLit(int64(h.Index), SInt), nil)}
 	ex.stopAtLoopExit = append(ex.stopAtLoopExit, h)
+	if i == 0 {
+		ex.skipHeadOnce = h
+	}
 	ex.execFrom(st, h, i, h) // pred=h marks "already inside"
 	ex.stopAtLoopExit = ex.stopAtLoopExit[:len(ex.stopAtLoopExit)-1]
 }
@@ -434,6 +442,9 @@ func (ex *Exec) enterLoop(st *State, h *ssa.BasicBlock, pred *ssa.BasicBlock) bo
 		names = append(names, n)
 	}
 	sort.Strings(names)
+	if debugLoops {
+		fmt.Fprintf(os.Stderr, "loop %d of %s writes: %v\n", ord, funcShort(fr.fn), names)
+	}
 	for _, n := range names {
 		ex.havocArr(st, n)
 	}
@@ -466,7 +477,9 @@ func (ex *Exec) enterLoop(st *State, h *ssa.BasicBlock, pred *ssa.BasicBlock) bo
 
 func (ex *Exec) execFrom(st *State, b *ssa.BasicBlock, idx int, pred *ssa.BasicBlock) []Outcome {
 	fr := st.top()
-	if idx == 0 {
+	if idx == 0 && ex.skipHeadOnce == b {
+		ex.skipHeadOnce = nil
+	} else if idx == 0 {
 		li := ex.eng.loops(fr.fn)
 		if _, isHead := li.heads[b]; isHead {
 			// leaving/re-entering logic for collect-mode body runs
@@ -716,6 +729,7 @@ func (ex *Exec) step(st *State, in ssa.Instruction) []*State {
 				set(x, scalar(App("byteAt", SBV(8), ex.bytesOf(st, ad.Obj), ad.Idx), x.Type()))
 			} else {
 				v := ex.load(st, ad)
+				ex.assumeLoaded(st, v)
 				if a.K == VAddr && a.A.Kind == AGlobal {
 					v = ex.globalValue(st, a.A, v)
 				}
@@ -788,9 +802,9 @@ func (ex *Exec) step(st *State, in ssa.Instruction) []*State {
 		dom, _ := mapNames(m)
 		ks := keySort(m)
 		d := st.get(dom, SArr(SRef, SArr(ks, SBool)))
-		ex.set(st, dom, Store(d, r, mk("constarr", "", SArr(ks, SBool), nil, nil, TFalse)))
+		ex.setAt(st, dom, Store(d, r, mk("constarr", "", SArr(ks, SBool), nil, nil, TFalse)), r)
 		ln := ex.mapLenName(m)
-		ex.set(st, ln, Store(st.get(ln, SArr(SRef, SInt)), r, IntLit(0, SInt)))
+		ex.setAt(st, ln, Store(st.get(ln, SArr(SRef, SInt)), r, IntLit(0, SInt)), r)
 		set(x, scalar(r, x.Type()))
 	case *ssa.MakeSlice:
 		r := ex.newRef(st, "slice")
@@ -805,9 +819,9 @@ func (ex *Exec) step(st *State, in ssa.Instruction) []*State {
 	case *ssa.MakeChan:
 		r := ex.newRef(st, "chan")
 		cp := toInt(ex.val(st, x.Size).T, x.Size.Type())
-		ex.set(st, "Chlen", Store(st.get("Chlen", SArr(SRef, SInt)), r, IntLit(0, SInt)))
-		ex.set(st, "Chcap", Store(st.get("Chcap", SArr(SRef, SInt)), r, cp))
-		ex.set(st, "Chclosed", Store(st.get("Chclosed", SArr(SRef, SBool)), r, TFalse))
+		ex.setAt(st, "Chlen", Store(st.get("Chlen", SArr(SRef, SInt)), r, IntLit(0, SInt)), r)
+		ex.setAt(st, "Chcap", Store(st.get("Chcap", SArr(SRef, SInt)), r, cp), r)
+		ex.setAt(st, "Chclosed", Store(st.get("Chclosed", SArr(SRef, SBool)), r, TFalse), r)
 		set(x, scalar(r, x.Type()))
 	case *ssa.MakeClosure:
 		r := ex.newRef(st, "clo")
@@ -1318,7 +1332,7 @@ func (ex *Exec) sliceOp(st *State, x *ssa.Slice) *Val {
 				arr := st.get(n, SArr(SRef, SArr(SInt, l.sort)))
 				na := Fresh("subelems", SArr(SInt, l.sort))
 				st.assume(Forall([]*Term{j}, Eq(Select(na, j), Select(Select(arr, base.Ref), Add(j, lo)))))
-				ex.set(st, n, Store(arr, r, na))
+				ex.setAt(st, n, Store(arr, r, na), r)
 			}
 		}
 		return &Val{K: VSlice, Ref: r, Len: Sub(hi, lo), Ty: x.Type(), Elem: t.Elem()}
@@ -1448,3 +1462,17 @@ func (ex *Exec) selectOp(st *State, x *ssa.Select) []*State {
 
 // selectHook lets ghost-time modelling observe which case was taken.
 func (ex *Exec) selectHook(s *State, x *ssa.Select, i int) {}
+
+// assumeLoaded adds the type invariants of values read from the heap: slice
+// lengths are non-negative, a nil slice has length 0.
+func (ex *Exec) assumeLoaded(st *State, v *Val) {
+	switch v.K {
+	case VSlice:
+		st.assume(Ge(v.Len, IntLit(0, SInt)))
+		st.assume(Implies(Eq(v.Ref, IntLit(0, SRef)), Eq(v.Len, IntLit(0, SInt))))
+	case VStruct, VTuple:
+		for _, f := range v.Fs {
+			ex.assumeLoaded(st, f)
+		}
+	}
+}
